@@ -1,7 +1,374 @@
+(* C05/Props.v -- the property theorems, nothing else.
+   List, map and sequence templates return exactly the denoted items.
+
+   Vocabulary (C05/Model.v; proofs in C05/Lemmas*.v):
+     list_ctor / list_init / list_gen    ListProds.__init__ / complete_init / gen_productions
+     map_ctor / map_init / map_gen       the same for MapProds;   seq_gen  ProdSequence.gen_productions
+     rt                                  TElement tree of parse(text, do_cleanup=False):
+                                         RTok token | RNull empty production | RNode inner | RSeq flattened sequence
+     valid P t                           t is a derivation tree of the productions P (elements named by symbols
+                                         that P does not define -- items, brackets -- are arbitrary subtrees)
+     frontier P t                        those foreign subtrees, in source order;  yield t  = the token names
+     litems r o t                        the frontier of a list without its brackets and delimiters = the items
+     mcontent r o t                      the frontier of a map without brackets, delimiters and assignment
+                                         symbols = key1 value1 key2 value2 ...
+     cl E t (MClean fc fch)              StdCleanuper._cleanup(t, for_container=fc, for_choice=fch) in the
+                                         cleanup environment E (templates, choice/keep/squash symbols):
+                                         Ok (OTe (name, _is_leaf, value) no_squash) or an exception
+     clean_tes / clean_pairs             the items (keys and values) cleaned as container entries, in order
+     item_value x                        `x.value if x.is_leaf() else x`
+     flatten seqs t                      LLParser._process_seq_telement applied bottom-up (as the parse loop does)
+     D, enc, den E t d                   abstract data, its python representation, "t denotes d" *)
 From Coq Require Import ZArith List Bool.
-From AK Require Import Common.Err LLP.Base gen.C05_Consts C05.Model C05.Lemmas.
+From AK Require Import Common.Err LLP.Base gen.C05_Consts C05.Model C05.Lemmas C05.LemmasList C05.LemmasMap
+     C05.LemmasSeq C05.LemmasNest C05.Witness C05.LemmasEx.
 Import ListNotations.
 
-Theorem generated_names_fresh : sfx_tail <> [] /\ sfx_kv_pair <> [] /\ sfx_kv_tail <> [] /\ sfx_element <> [].
-Proof. exact sfx_nonempty. Qed.
-Print Assumptions generated_names_fresh.
+(* ---- what is read from the source on every run ------------------------ *)
+
+(* the generated helper names really extend the template's name, the map's two
+   helper names differ, and _cleanup descends into the elements of a sequence *)
+Theorem source_shape :
+  sfx_tail <> [] /\ sfx_kv_pair <> [] /\ sfx_kv_tail <> [] /\ sfx_element <> [] /\
+  sfx_kv_pair <> sfx_kv_tail /\ seq_cleaned = true.
+Proof.
+  destruct sfx_nonempty as (A & B & C & D').
+  exact (conj A (conj B (conj C (conj D' (conj sfx_pair_tail_differ eq_refl))))).
+Qed.
+Print Assumptions source_shape.
+
+(* ---- ListProds -------------------------------------------------------- *)
+
+(* the constructor accepts exactly eight combinations of
+   (brackets, delimiter, allow_final_delimiter, optional) *)
+Theorem list_option_combinations : forall op item d c afd opt o,
+  list_ctor op item d c afd opt = Ok o ->
+  lo_open o = op /\ lo_item o = item /\ lo_delim o = d /\ lo_close o = c /\
+  In (is_some (lo_open o), is_some (lo_delim o), lo_afd o, lo_opt o)
+     [(true, true, true, true); (true, true, true, false); (true, true, false, true); (true, true, false, false);
+      (true, false, false, true); (true, false, false, false); (false, true, false, false); (false, false, false, false)].
+Proof.
+  intros op item d c afd opt o. unfold list_ctor.
+  destruct op, c, d, afd as [[|]|], opt as [[|]|]; simpl; intro H; try discriminate;
+    injection H as <-; simpl; repeat split; tauto.
+Qed.
+Print Assumptions list_option_combinations.
+
+Example list_option_combinations_all_reachable :
+  forallb (fun combo =>
+    existsb (fun args : option sym * option sym * option bool * option bool =>
+               let '(br, d, afd, opt) := args in
+               match list_ctor br sVALUE d br afd opt with
+               | Ok o => Bool.eqb (is_some (lo_open o)) (fst (fst (fst combo))) &&
+                         Bool.eqb (is_some (lo_delim o)) (snd (fst (fst combo))) &&
+                         Bool.eqb (lo_afd o) (snd (fst combo)) && Bool.eqb (lo_opt o) (snd combo)
+               | Err _ => false
+               end)
+            (flat_map (fun br => flat_map (fun d => flat_map (fun afd => map (fun opt => (br, d, afd, opt))
+                        [None; Some true; Some false]) [None; Some true; Some false]) [None; Some sCOMMA]) [None; Some sLB]))
+    [(true, true, true, true); (true, true, true, false); (true, true, false, true); (true, true, false, false);
+     (true, false, false, true); (true, false, false, false); (false, true, false, false); (false, false, false, false)]
+  = true.
+Proof. vm_compute. reflexivity. Qed.
+Print Assumptions list_option_combinations_all_reachable.
+
+(* list_denote: for every derivation tree of the productions generated for ANY
+   accepted option combination, the conversion returns the items of the
+   frontier, cleaned as container entries, in source order (the first exception
+   of an item is propagated); [list_post] is the special-casing of a trailing /
+   single None at the end of transform_t_elem; an absent optional list stays None *)
+Theorem list_denote : forall result o E t fc fch,
+  lopts_ok result o ->
+  tmpl_get (e_tmpl E) result = Some (TL (list_init result o)) ->
+  rname t = result -> valid (list_gen (list_init result o)) t = true ->
+  cl E t (MClean fc fch) =
+  if lo_opt o && is_rnull t then Ok (OTe (embed t) fch)
+  else match clean_tes E (litems result o t) with
+       | Err e => Err e
+       | Ok items => Ok (OTe (mkTe result true (CList (list_post o (map item_value items)))) fch)
+       end.
+Proof. intros result o E t fc fch OK. exact (list_denote_l result o OK E t fc fch). Qed.
+Print Assumptions list_denote.
+
+(* the special-casing changes nothing unless the last entry is None in a list
+   that allows a final delimiter, or the only entry of a bracket-less list is None *)
+Theorem list_post_plain : forall o vals,
+  (lo_afd o = false \/ last vals CNone <> CNone) ->
+  (is_some (lo_open o) = true \/ vals <> [CNone]) ->
+  list_post o vals = vals.
+Proof. exact list_post_id. Qed.
+Print Assumptions list_post_plain.
+
+(* "[1, 2, ]" matched through an EMPTY last item (nullable item symbol) is read
+   as a final delimiter: the trailing None is dropped *)
+Theorem final_delimiter_through_empty_item : forall o vals,
+  lo_afd o = true -> list_post o (vals ++ [CNone]) = vals.
+Proof. exact list_post_final_none. Qed.
+Print Assumptions final_delimiter_through_empty_item.
+
+(* the (delimiter,) production contributes no item: a final delimiter adds nothing *)
+Theorem final_delimiter_adds_nothing : forall result o d dl,
+  lopts_ok result o -> lo_delim o = Some d -> rname dl = d ->
+  filter (nonpunct o) (frontier (list_gen (list_init result o)) (RNode (lt_tail (list_init result o)) [dl])) = [].
+Proof. intros result o d dl OK. exact (final_delim_no_item result o OK d dl). Qed.
+Print Assumptions final_delimiter_adds_nothing.
+
+(* an empty bracket pair is a derivation tree and gives [] *)
+Theorem list_empty_brackets : forall result o E op c b1 b2 fc fch,
+  lopts_ok result o ->
+  tmpl_get (e_tmpl E) result = Some (TL (list_init result o)) ->
+  lo_open o = Some op -> lo_close o = Some c -> rname b1 = op -> rname b2 = c ->
+  valid (list_gen (list_init result o)) (RNode result [b1; b2]) = true /\
+  cl E (RNode result [b1; b2]) (MClean fc fch) = Ok (OTe (mkTe result true (CList [])) fch).
+Proof. intros result o E op c b1 b2 fc fch OK. exact (empty_brackets_l result o OK E op c b1 b2 fc fch). Qed.
+Print Assumptions list_empty_brackets.
+
+(* an absent optional list is a derivation tree and its value stays None *)
+Theorem list_absent_optional : forall result o E fc fch,
+  lopts_ok result o ->
+  tmpl_get (e_tmpl E) result = Some (TL (list_init result o)) -> lo_opt o = true ->
+  valid (list_gen (list_init result o)) (RNull result) = true /\
+  cl E (RNull result) (MClean fc fch) = Ok (OTe (mkTe result true CNone) fch).
+Proof. intros result o E fc fch OK. exact (absent_optional_l result o OK E fc fch). Qed.
+Print Assumptions list_absent_optional.
+
+(* a bracket-less list that matched nothing gives [] *)
+Theorem list_bracketless_empty : forall result o E fc fch,
+  lopts_ok result o ->
+  tmpl_get (e_tmpl E) result = Some (TL (list_init result o)) -> lo_open o = None ->
+  valid (list_gen (list_init result o)) (RNull result) = true /\
+  cl E (RNull result) (MClean fc fch) = Ok (OTe (mkTe result true (CList [])) fch).
+Proof. intros result o E fc fch OK. exact (bracketless_empty_l result o OK E fc fch). Qed.
+Print Assumptions list_bracketless_empty.
+
+(* final_delim_rejected: with allow_final_delimiter=False no derivation tree of
+   the list symbol has a token string ending "delimiter close-bracket", when
+   brackets/delimiters are single tokens and every item matches at least one
+   token and does not itself end with the delimiter token (non-nullable item) *)
+Theorem final_delim_rejected : forall result o op d c t,
+  lopts_ok result o ->
+  lo_open o = Some op -> lo_delim o = Some d -> lo_close o = Some c -> lo_afd o = false ->
+  rname t = result -> valid (list_gen (list_init result o)) t = true -> d <> op ->
+  Forall (leaf_ok o d) (frontier (list_gen (list_init result o)) t) ->
+  forall pre, yield t <> pre ++ [d; c].
+Proof. intros result o op d c t OK Eo Ed Ec Ea. exact (final_delim_rejected_l result o OK op d c Eo Ed Ec Ea t). Qed.
+Print Assumptions final_delim_rejected.
+
+(* ---- MapProds --------------------------------------------------------- *)
+
+(* map_denote: the conversion returns dict(pairs) of the key/value subtrees of
+   the frontier in source order, cleaned as container entries *)
+Theorem map_denote : forall result o E t fc fch,
+  mopts_ok result o ->
+  tmpl_get (e_tmpl E) result = Some (TM (map_init result o)) ->
+  rname t = result -> valid (map_gen (map_init result o)) t = true ->
+  cl E t (MClean fc fch) =
+  if mo_opt o && is_rnull t then Ok (OTe (embed t) fch)
+  else match clean_pairs E (mcontent result o t) with
+       | Err e => Err e
+       | Ok pairs => match py_dict pairs with
+                     | Err e => Err e
+                     | Ok d => Ok (OTe (mkTe result true (CDict d)) fch)
+                     end
+       end.
+Proof. intros result o E t fc fch OK. exact (map_denote_l result o OK E t fc fch). Qed.
+Print Assumptions map_denote.
+
+(* dict(): with hashable keys no exception; one entry per key in the order of
+   first occurrence; a repeated (string) key keeps the LAST value *)
+Theorem map_dict_semantics : forall ps,
+  forallb (fun kv => is_cstr (fst kv)) ps = true ->
+  py_dict ps = Ok (dict_of ps) /\
+  map fst (dict_of ps) = first_occ (map fst ps) /\
+  forall k, dict_get (dict_of ps) k = assoc_last ps k.
+Proof.
+  intros ps H. split; [|split].
+  - apply py_dict_hashable. rewrite forallb_forall in *. intros kv Hkv. specialize (H kv Hkv).
+    destruct (fst kv); try discriminate; reflexivity.
+  - apply dict_keys_order.
+  - intro k. now apply dict_last_wins.
+Qed.
+Print Assumptions map_dict_semantics.
+
+Theorem map_empty_brackets : forall result o E op c b1 b2 fc fch,
+  mopts_ok result o ->
+  tmpl_get (e_tmpl E) result = Some (TM (map_init result o)) ->
+  mo_open o = Some op -> mo_close o = Some c -> rname b1 = op -> rname b2 = c ->
+  valid (map_gen (map_init result o)) (RNode result [b1; b2]) = true /\
+  cl E (RNode result [b1; b2]) (MClean fc fch) = Ok (OTe (mkTe result true (CDict [])) fch).
+Proof. intros result o E op c b1 b2 fc fch OK. exact (empty_map_l result o OK E op c b1 b2 fc fch). Qed.
+Print Assumptions map_empty_brackets.
+
+Theorem map_absent_optional : forall result o E fc fch,
+  mopts_ok result o ->
+  tmpl_get (e_tmpl E) result = Some (TM (map_init result o)) -> mo_opt o = true ->
+  valid (map_gen (map_init result o)) (RNull result) = true /\
+  cl E (RNull result) (MClean fc fch) = Ok (OTe (mkTe result true CNone) fch).
+Proof. intros result o E fc fch OK. exact (absent_optional_map_l result o OK E fc fch). Qed.
+Print Assumptions map_absent_optional.
+
+(* ---- ProdSequence ----------------------------------------------------- *)
+
+(* seq_denote: flattening a derivation tree of the generated productions (as
+   the parse loop does, innermost first) gives the leaf whose value is the list
+   of matched elements in source order (each flattened in turn) *)
+Theorem seq_denote : forall result syms seqs t,
+  mem result seqs = true -> mem (seq_elem_name result) seqs = false ->
+  ~ In result syms -> ~ In (seq_elem_name result) syms ->
+  rname t = result -> valid (seq_gen result syms) t = true ->
+  flatten seqs t =
+  match all_ok (map (flatten seqs) (frontier (seq_gen result syms) t)) with
+  | Ok els => Ok (RSeq result els)
+  | Err e => Err e
+  end.
+Proof. intros result syms seqs t H1 H2 H3 H4. exact (seq_denote_l result syms seqs H1 H2 H3 H4 t). Qed.
+Print Assumptions seq_denote.
+
+(* ---- items ------------------------------------------------------------ *)
+
+(* full statement: a symbol with single-symbol productions only, not kept,
+   never shows in a container entry *)
+Definition squash_item_statement : Prop :=
+  forall E c x v ns,
+    tmpl_get (e_tmpl E) c = None -> mem c (e_squash E) = true -> mem c (e_keep E) = false ->
+    cl E x (MClean true false) = Ok (OTe v ns) ->
+    exists y ns', cl E (RNode c [x]) (MClean true false) = Ok (OTe y ns') /\ item_value y = item_value v.
+
+(* it does not hold as coded: a choice symbol below a choice symbol is kept as
+   a tree element (the name records which alternative matched): VALUE -> ATOM | LIST,
+   ATOM -> WORD | NUM, entry "a" is the element ATOM[WORD a], not "a" *)
+Theorem squash_item_refuted : ~ squash_item_statement.
+Proof.
+  intro H.
+  destruct (H (env_of w6_g [] sE true) sVALUE (RNode sATOM [RTok sWORD [97]%Z])
+              (mkTe sWORD true (CStr [97]%Z)) true) as (y & ns' & Hy & Hv);
+    try (vm_compute; reflexivity).
+  vm_compute in Hy. injection Hy as <- _. vm_compute in Hv. discriminate.
+Qed.
+Print Assumptions squash_item_refuted.
+
+(* proved part: around an element whose cleanup does not depend on its position
+   (token, template symbol, sequence) the symbol disappears and the bare value
+   is the entry *)
+Theorem squash_item_partial : forall E c x d,
+  choice_ok E c -> base_result E x d ->
+  exists y ns, cl E (RNode c [x]) (MClean true false) = Ok (OTe y ns) /\
+               te_leaf y = true /\ te_val y = enc d /\ item_value y = enc d.
+Proof. exact squash_item_l. Qed.
+Print Assumptions squash_item_partial.
+
+(* ---- nesting ---------------------------------------------------------- *)
+
+(* nested: containers nested in containers to any depth (structural induction
+   over the denotation): the entry a tree contributes to its container is the
+   python representation of the data it denotes; for tokens, template symbols
+   and sequences the same holds in every position, with the element's name kept *)
+Theorem nested : forall E t d, den E t d ->
+  (exists x ns, cl E t (MClean true false) = Ok (OTe x ns) /\ item_value x = enc d) /\
+  (is_base E t -> forall fc fch, exists x,
+     cl E t (MClean fc fch) = Ok (OTe x fch) /\ te_name x = rname t /\ te_leaf x = true /\ te_val x = enc d).
+Proof.
+  intros E t d H. destruct (nested_l E) as (N & _). destruct (N t d H) as [B I]. split; [exact I|exact B].
+Qed.
+Print Assumptions nested.
+
+(* containers as elements of a sequence (the repaired code: e_seqclean = true,
+   which source_shape states of the current source): every element is converted *)
+Theorem nested_in_sequence : forall E n ch nds fc fch,
+  e_seqclean E = true -> tmpl_get (e_tmpl E) n = None -> densb E ch nds ->
+  cl E (RSeq n ch) (MClean fc fch) = Ok (OTe (mkTe n true (enc (DSeq nds))) fch).
+Proof.
+  intros E n ch nds fc fch SC HT H.
+  assert (Dn : den E (RSeq n ch) (DSeq nds)) by (apply den_seq; auto).
+  destruct (nested_l E) as (N & _). destruct (N _ _ Dn) as [B _].
+  destruct (B HT fc fch) as (x & Hx & Hn & Hl & Hv). rewrite Hx. destruct x as [xn xl xv]. simpl in *. now subst.
+Qed.
+Print Assumptions nested_in_sequence.
+
+(* a cleanup that returns at the is_leaf() test (the code before c9bcabb,
+   e_seqclean = false) hands back the elements of a sequence untouched ... *)
+Theorem sequence_elements_untouched_without_descent : forall E n ch fc fch,
+  e_seqclean E = false -> tmpl_get (e_tmpl E) n = None ->
+  cl E (RSeq n ch) (MClean fc fch) = Ok (OTe (embed (RSeq n ch)) fch).
+Proof. intros E n ch fc fch SC HT. rewrite (cl_seq E n ch fc fch HT), SC. reflexivity. Qed.
+Print Assumptions sequence_elements_untouched_without_descent.
+
+(* ... so "nested to any depth" fails for it: SEQ: ProdSequence(WORD, LIST), text
+   "a [b,[c]] f ;" keeps the raw LIST/ITEM/LIST__TAIL tree (regression witness,
+   corpus/C05/nested_in_sequence.json) *)
+Theorem nested_in_sequence_refuted :
+  exists g keep start raw gi x,
+    init_grammar g = Ok gi /\ templates_valid false gi raw = true /\
+    cleanup (grammar_env gi keep start false) raw = Ok x /\
+    has_raw (e_tmpl (grammar_env gi keep start false)) (te_cv x) = true.
+Proof. exists w1_g, [], sE, w1_raw, w1_gi, w1_clean_old. exact w1_refutes. Qed.
+Print Assumptions nested_in_sequence_refuted.
+
+(* ---- stretch, not proved ---------------------------------------------- *)
+
+(* template_unambiguous (for lists with a delimiter): the token string of a
+   derivation tree determines its items, hence with C01 parse(render d) denotes d.
+   Only tested (oracle: equality with the generating data). *)
+Definition template_unambiguous_statement : Prop :=
+  forall result o d t1 t2,
+    lopts_ok result o -> lo_delim o = Some d ->
+    rname t1 = result -> rname t2 = result ->
+    valid (list_gen (list_init result o)) t1 = true -> valid (list_gen (list_init result o)) t2 = true ->
+    Forall (leaf_ok o d) (frontier (list_gen (list_init result o)) t1) ->
+    Forall (leaf_ok o d) (frontier (list_gen (list_init result o)) t2) ->
+    (forall x, In x (litems result o t1 ++ litems result o t2) -> ~ In d (yield x)) ->
+    yield t1 = yield t2 ->
+    map yield (litems result o t1) = map yield (litems result o t2).
+
+(* ---- the hypotheses are satisfiable; concrete runs --------------------- *)
+
+(* option records of accepted constructor calls meet lopts_ok / mopts_ok *)
+Example options_ok : lopts_ok sLIST o_list /\ mopts_ok sMAP o_map.
+Proof. exact (conj o_list_ok o_map_ok). Qed.
+Print Assumptions options_ok.
+
+(* "[a, {k: [b, c], k: d}, [], ]": source order, last value of a repeated key,
+   empty brackets, final delimiter -- on the tree the implementation returned *)
+Example run_list_map :
+  valid (list_gen (list_init sLIST o_list)) (match w2_raw with RNode _ [l] => l | _ => RNull [] end) = true /\
+  cleanup (env_of w2_g [] sE true) w2_raw =
+  Ok (mkTe sE true (CList [CStr [97]%Z; CDict [(CStr [107]%Z, CStr [100]%Z)]; CList []])).
+Proof. vm_compute. split; reflexivity. Qed.
+Print Assumptions run_list_map.
+
+(* nullable item: "[a, ]" gives [a] (the empty last item is the final delimiter),
+   "[a, , ]" gives [a, None] *)
+Example run_final_delimiter_nullable_item :
+  cleanup (env_of w3_g [] sE true) w3_raw = Ok (mkTe sE true (CList [CStr [97]%Z])) /\
+  cleanup (env_of w3b_g [] sE true) w3b_raw = Ok (mkTe sE true (CList [CStr [97]%Z; CNone])).
+Proof. vm_compute. split; reflexivity. Qed.
+Print Assumptions run_final_delimiter_nullable_item.
+
+(* absent optional list "a ;" stays None; bracket-less list "a b ;" *)
+Example run_absent_and_bracketless :
+  cleanup (env_of w4_g [] sE true) w4_raw =
+  Ok (mkTe sE false (CList [CElem sWORD true (CStr [97]%Z); CElem sLIST true CNone; CElem sSEMI true (CStr [59]%Z)])) /\
+  cleanup (env_of w7_g [] sE true) w7_raw =
+  Ok (mkTe sE false (CList [CElem sLIST true (CList [CStr [97]%Z; CStr [98]%Z]); CElem sSEMI true (CStr [59]%Z)])).
+Proof. vm_compute. split; reflexivity. Qed.
+Print Assumptions run_absent_and_bracketless.
+
+(* the un-flattened tree of "a 1 b ;" flattens to the tree the parser returned *)
+Example run_flatten : flatten [sSEQ] w5_raw2 = Ok w5_raw /\ flatten [sSEQ] w1_raw2 = Ok w1_raw.
+Proof. vm_compute. split; reflexivity. Qed.
+Print Assumptions run_flatten.
+
+(* a denotation derivation exists for a nested value with a repeated key ... *)
+Example den_satisfiable : den E8 w8_list d8 /\ enc d8 = CList [CStr [97]%Z; CDict [(CStr [107]%Z, CStr [99]%Z)]].
+Proof. split; [exact w8_den|vm_compute; reflexivity]. Qed.
+Print Assumptions den_satisfiable.
+
+(* ... and for containers inside a sequence; the repaired cleanup converts the
+   witness of nested_in_sequence_refuted *)
+Example den_sequence_satisfiable :
+  den (E1 true) w1_seq d1 /\
+  exists x, cleanup (E1 true) w1_raw = Ok x /\ has_raw (e_tmpl (E1 true)) (te_cv x) = false.
+Proof.
+  split; [exact w1_den|]. eexists. split; [vm_compute; reflexivity|vm_compute; reflexivity].
+Qed.
+Print Assumptions den_sequence_satisfiable.
